@@ -23,5 +23,13 @@ CHECKS += [
          technique="property-based testing with a validity-predicate oracle"),
 ]
 
+CHECKS += [
+    dict(property_id="C15", category="exploration",
+         text="Model-based stateful testing: generated histories of the data operations (Create, CreateEphemeral, Set, SetEphemeral, Get, Delete, GetChildren, GetTree) by 1-3 real zkDCS clients plus a raw external writer, over 9 keys with random redundant-slash spellings and 7 JSON value shapes, interleaved with connection severing, cut-offs, forced and timer-driven session expiry and virtual-time advances, run against a fake ZooKeeper wire server in a synctest bubble; after every step each result and the whole server tree are compared with a reference tree model written from the statement, and the timing clause (ephemerals gone within the session timeout after a cut-off) is asserted on the virtual clock.",
+         design_ref="DESIGN.md section 4, C15; section 2.1",
+         note="Trusted: the fake ZooKeeper server's znode/session semantics (it supplies session liveness to the model); go-zookeeper and net.Pipe behave in the bubble as outside; faults fall between operations.",
+         technique="stateful model-based property testing (rapid) of the real zkDCS against a reference tree model over a fake ZooKeeper wire server"),
+]
+
 _claimed = {c["property_id"] for c in CHECKS}
 NOT_APPLICABLE = [dict(property_id=p, reason="check not built yet in this revision (framework under construction; see DESIGN.md build order)") for p in ALL if p not in _claimed]
